@@ -335,7 +335,7 @@ def run(ctx):
         return -len(kinds & {"DeclFunc", "DeclGlobal", "DeclConst", "DeclEnum", "DeclStruct"})
     api_idx = set(sorted(range(len(sel)), key=lambda i: (api_score(sel[i]), i))[:n_api])
     work = [(b, ("inl", "ool", "api") if i in api_idx else ("inl", "ool")) for i, b in enumerate(sel)]
-    nrand = 12 if quick else 150
+    nrand = 12 if quick else 100
     for i in range(nrand):
         work.append((random_chain(ctx.rng, ctx.rng.choice([2, 2, 3]), ctx.rng.randrange(2, 7)),
                      ("inl", "ool", "api") if (i % 3 == 0) else ("inl", "ool")))
